@@ -35,10 +35,18 @@ type sortCase struct {
 	Gen string `json:"gen,omitempty"`
 	// Seam: "" = public API; "quick" = real quickSort entered with Depth on
 	// [A,B); "heap" = real heapSort on [A,B).
-	Seam  string `json:"seam,omitempty"`
-	Depth int    `json:"depth,omitempty"`
-	A     int    `json:"a,omitempty"`
-	B     int    `json:"b,omitempty"`
+	// Battery: the sorted frame also goes through the latent-state battery (battery.go)
+	Battery bool `json:"battery,omitempty"`
+	// Aliasing: a second Sort of the same receiver must leave the first result alone; the same for a receiver that is a
+	// Slice of the first third of a larger frame, which must stay unchanged as well
+	Aliasing bool `json:"aliasing,omitempty"`
+	// UpperFirst: the (enum) key column k goes through the built-in ToUpper before it is sorted; the upper-cased values
+	// keep the declared order of their first occurrence
+	UpperFirst bool   `json:"upper_first,omitempty"`
+	Seam       string `json:"seam,omitempty"`
+	Depth      int    `json:"depth,omitempty"`
+	A          int    `json:"a,omitempty"`
+	B          int    `json:"b,omitempty"`
 }
 
 // refCompare is the reference order of one key: -1, 0, +1.
@@ -232,6 +240,32 @@ func runSortCase(c sortCase) *core.Failure {
 		return core.Failf("could not build input frame: %s", in.ErrText)
 	}
 	in.AdoptMeta(c.Frame)
+	if c.UpperFirst {
+		qf = qf.Apply(qframe.Instruction{Fn: "ToUpper", DstCol: "k", SrcCol1: "k"})
+		in = model.Observe(qf)
+		if in.Err {
+			return core.Failf("ToUpper on the key column failed: %s", in.ErrText)
+		}
+		// the order of the upper-cased values: first occurrence in the declared list
+		var up []string
+		seen := map[string]bool{}
+		if kc, _, ok := c.Frame.Col("k"); ok {
+			for _, v := range kc.EnumVals {
+				u := strings.ToUpper(v)
+				if !seen[u] {
+					seen[u] = true
+					up = append(up, u)
+				}
+			}
+		}
+		c.Frame = c.Frame.Clone()
+		for ci := range c.Frame.Cols {
+			if c.Frame.Cols[ci].Name == "k" {
+				c.Frame.Cols[ci].EnumVals = up
+			}
+		}
+		in.AdoptMeta(c.Frame)
+	}
 	before := in.String()
 	if c.History != "" {
 		// the frame was sorted by the same orders before and then changed: the second Sort must order
@@ -273,6 +307,47 @@ func runSortCase(c sortCase) *core.Failure {
 		out2.AdoptMeta(c.Frame)
 		if f := checkSorted(in, out2, c.Orders); f != nil {
 			f.Msg = "read through View.Slice(): " + f.Msg
+			return f
+		}
+	}
+	// a second Sort of the same receiver (all keys reversed) must leave the first result alone, and sorting a frame that
+	// is a Slice of the first half of a larger one must leave that larger frame alone
+	if c.Aliasing && !c.UpperFirst && c.Frame.N >= 1 && c.Gen == "" {
+		firstObs := model.Observe(sorted).String()
+		var revOrders []qframe.Order
+		for _, o := range toOrders(c.Orders) {
+			o.Reverse = !o.Reverse
+			revOrders = append(revOrders, o)
+		}
+		_ = qf.Sort(revOrders...)
+		if now := model.Observe(sorted).String(); now != firstObs {
+			return core.Failf("a second Sort of the same receiver changed the frame returned by the first Sort:\nbefore: %s\nafter:  %s", firstObs, now)
+		}
+		dbl := c.Frame.Rows(append(append(append([]int{}, seqInts(c.Frame.N)...), seqInts(c.Frame.N)...), seqInts(c.Frame.N)...))
+		parent := model.Build(dbl)
+		pObs := model.Observe(parent).String()
+		half := parent.Slice(0, c.Frame.N)
+		s1 := half.Sort(toOrders(c.Orders)...)
+		s1Obs := model.Observe(s1)
+		s1Obs.AdoptMeta(c.Frame)
+		if f := checkSorted(in, s1Obs, c.Orders); f != nil {
+			f.Msg = "Sort of a Slice of the first third of a larger frame: " + f.Msg
+			return f
+		}
+		_ = half.Sort(revOrders...)
+		if now := model.Observe(s1); now.String() != model.Observe(s1).String() || func() bool { now.AdoptMeta(c.Frame); return now.String() != s1Obs.String() }() {
+			return core.Failf("Sort of a Slice: a second Sort of the same receiver changed the first result")
+		}
+		if now := model.Observe(parent).String(); now != pObs {
+			return core.Failf("Sort of a Slice changed the frame the Slice was taken from:\nbefore: %s\nafter:  %s", pObs, now)
+		}
+	}
+	if c.Battery {
+		what := fmt.Sprintf("Sort(%+v) on shape %s", c.Orders, model.ShapeNames[c.Shape])
+		if f := latentBattery(sorted, declOf(c.Frame), what); f != nil {
+			return f
+		}
+		if f := bookkeepingBattery(sorted, what); f != nil {
 			return f
 		}
 	}
@@ -453,7 +528,7 @@ func c03Run(ctx *core.Ctx) {
 							id.Cells[i] = model.I(i)
 							distinct[v] = true
 						}
-						c := sortCase{Layer: "L1", Frame: model.Frame{N: n, Cols: []model.Col{k, k2, id}}, Shape: shape, Orders: ol}
+						c := sortCase{Layer: "L1", Frame: model.Frame{N: n, Cols: []model.Col{k, k2, id}}, Shape: shape, Orders: ol, Battery: n == 2 && oi%8 == 0 && shape == (oi+seq[0])%model.NShapes, Aliasing: n >= 2 && n <= 3 && shape == (oi+seq[0])%model.NShapes}
 						exec(c, len(distinct) >= 2)
 						ctx.Outcome(fmt.Sprintf("L1/%s/orders%d", kind, len(orders[oi])))
 					}
@@ -490,6 +565,38 @@ func c03Run(ctx *core.Ctx) {
 				}
 			})
 		}
+	}
+
+	// Layer 7: an enum key that went through the built-in ToUpper: every declared order of {c, C, b, a} (c and C become
+	// one value), all columns of <= 3 cells over the four values and null
+	{
+		vals := []string{"c", "C", "b", "a"}
+		cells := []model.Cell{model.S("c"), model.S("C"), model.S("b"), model.S("a"), model.Null()}
+		forEachPerm(len(vals), func(p []int) {
+			decl := make([]string, len(vals))
+			for i, j := range p {
+				decl[i] = vals[j]
+			}
+			for n := 2; n <= 3; n++ {
+				forEachSeq(n, len(cells), func(seq []int) {
+					for oi, ol := range [][]ordSpec{{{Col: "k"}}, {{Col: "k", Reverse: true}}, {{Col: "k", NullLast: true}, {Col: "id", Reverse: true}}} {
+						if !ctx.Mine() {
+							continue
+						}
+						k := model.Col{Name: "k", Kind: model.Enum, EnumVals: decl}
+						id := model.Col{Name: "id", Kind: model.Int}
+						k2 := model.Col{Name: "k2", Kind: model.Int}
+						for i, v := range seq {
+							k.Cells = append(k.Cells, cells[v])
+							id.Cells = append(id.Cells, model.I(i))
+							k2.Cells = append(k2.Cells, model.I(0))
+						}
+						exec(sortCase{Layer: "L7", Frame: model.Frame{N: n, Cols: []model.Col{k, k2, id}}, Shape: (oi + seq[0]) % model.NShapes, Orders: ol, UpperFirst: true}, true)
+						ctx.Outcome("L7/upper-cased-enum-key")
+					}
+				})
+			}
+		})
 	}
 
 	// Layer 2: algorithm regimes through the public API, int keys
@@ -780,3 +887,11 @@ func init() {
 }
 
 var _ = math.NaN
+
+func seqInts(n int) []int {
+	r := make([]int, n)
+	for i := range r {
+		r[i] = i
+	}
+	return r
+}
